@@ -1,7 +1,7 @@
 (** Single entry point of the extracted model: name of the case kind -> function. *)
 From Coq Require Import List NArith ZArith String.
 From Tongo Require Import Lib.Bits Lib.Sx Harness.H06 Harness.H07 Harness.H01 Harness.H18
-  Harness.H05 Harness.H13 Harness.H19 Harness.H12.
+  Harness.H05 Harness.H13 Harness.H19 Harness.H12 Harness.H03 Harness.H04.
 Import ListNotations.
 Local Open Scope string_scope.
 
@@ -37,4 +37,9 @@ Definition run (name : string) (a : sx) : sx :=
   else if is "c12.script" then H12.run_script a
   else if is "c12.race" then H12.run_race a
   else if is "c12.seq" then H12.run_seq a
+  else if is "c03.rt" then H03.run_rt a
+  else if is "c03.dec" then H03.run_dec a
+  else if is "c03.stack" then H03.run_stack a
+  else if is "c04.spec" then H04.run_spec a
+  else if is "c04.extmsg" then H04.run_extmsg a
   else sx_err "unknown case kind".
